@@ -278,6 +278,9 @@ def check(chk):
     chk.require('C02.coll', 60)
 
     # a `date` value is the day number of the instant: floor division also before 1970 (the Date helper is what the date codec serializes)
+    # nested collections: Cassandra encodes the elements of a collection with the v3 layout whatever the connection's version (C01 decides it per writer / reader pair)
+    chk.rule('C02.inner', 'every element of a collection is handed to its codec with the inner protocol version max(3, v) on the writer and the reader side (shared with C01.coll)')
+    chk.borrow('C01', {'C01.coll': 'C02.inner'}, 'under protocol v1 / v2 a nested collection is then written with 2-byte counts where Cassandra (and the driver\'s own reader) expect the v3 layout')
     chk.rule('C02.date', 'Date computes its day number by floor division of the epoch seconds (shared with C34)')
     chk.borrow('C34', {'C34.datefmt': 'C02.date'}, 'a datetime before 1970 with a time of day is encoded as the following day')
 
